@@ -169,4 +169,44 @@ var targets = []Target{
 		State:    map[string][]string{"BinaryProtocol": {"Buf", "Read"}},
 		Funcs:    []string{"BinaryProtocol.SkipFixed32Type", "BinaryProtocol.SkipFixed64Type", "BinaryProtocol.SkipBytesType", "BinaryProtocol.Skip"},
 	},
+	{
+		// C12: what enters the pool (thrift BinaryProtocol.Recycle / Reset)
+		Module: "Gen_thriftpool",
+		Dir:    "thrift",
+		Mode:   "abs",
+		State:  map[string][]string{"BinaryProtocol": {"Buf", "Read", "borrowed"}},
+		Funcs:  []string{"BinaryProtocol.Reset", "BinaryProtocol.Recycle"},
+	},
+	{
+		// C12: the same for proto/binary
+		Module: "Gen_protopool",
+		Dir:    "proto/binary",
+		Mode:   "abs",
+		State:  map[string][]string{"BinaryProtocol": {"Buf", "Read", "borrowed"}},
+		Funcs:  []string{"BinaryProtocol.Reset", "BinaryProtocol.Recycle"},
+	},
+	{
+		// C08 / C13: the finite test in front of EncodeFloat64 (JSON has no spelling for NaN and the infinities)
+		Module:  "Gen_p2jfinite",
+		Dir:     "conv/p2j",
+		Mode:    "abs",
+		Prelude: absFloatPrelude,
+		Funcs:   []string{"checkFinite"},
+	},
+	{
+		// C03 / C13: the same test in conv/t2j (inline in doRecurse, case DOUBLE)
+		Module:  "Gen_t2jfinite",
+		Dir:     "conv/t2j",
+		Mode:    "abs",
+		Prelude: absFloatPrelude,
+		Blocks:  []Block{{Func: "BinaryConv.doRecurse", Name: "double_not_finite", Anchor: "math.IsNaN(v) || math.IsInf(v, 0)", Cond: true}},
+	},
+	{
+		// C09: JSON object key -> Protobuf map key (which strconv parser with which bit size, which writer)
+		Module:   "Gen_j2pkey",
+		Dir:      "conv/j2p",
+		Mode:     "abs",
+		Requires: []string{"Gen_protowire", "Gen_proto", "Gen_protobinary"},
+		Funcs:  []string{"visitorUserNode.encodeMapKey"},
+	},
 }
